@@ -21,6 +21,7 @@ REQUIRED = ['ci_linear', 'ci_log', 'ci_contains', 'ci_nested', 'ci_exp_contains'
             'xfit_ic_rd_generated', 'xfit_ic_rr_generated', 'xfit_ic_or_generated', 'xfit_estimates_generated',
             'aipw_calc_ratio_var_generated',
             'joint_estimate_generated',
+<<<<<<< HEAD
             # Props/C06_Calc.lean: the second batch of zepid/calc/utils.py (Gen/Calc2.lean)
             'sens_ci_linear', 'spec_ci_linear', 'sens_indep_alpha', 'spec_indep_alpha', 'sensitivity_eq_risk_ci',
             'specificity_eq_risk_ci', 'sens_reject_iff', 'spec_reject_iff', 'sens_coherent', 'spec_coherent',
@@ -32,6 +33,11 @@ REQUIRED = ['ci_linear', 'ci_log', 'ci_contains', 'ci_nested', 'ci_exp_contains'
             'real_calc2_transc_ok', 'real_logit_roundtrip',
             # Props/C06_Icr.lean: interaction_contrast_ratio(ci='delta') of zepid/base.py (Gen/Icr.lean)
             'icr_delta_def', 'icr_indep_alpha', 'icr_coherent']
+=======
+            # Props/C06_Splits.lean: aipw_calculator with splits given (cross-fit AIPTW), regenerated
+            'aipw_calc_splits_generated', 'aipw_calc_splits_var_nonneg', 'aipw_calc_splits_one',
+            'aipw_calc_splits_ratio_estimate']
+>>>>>>> w-C
 RULE = ('alpha runs over a fixed grid (25 equally spaced values in (0,1), the extremes 1e-6/1e-3/0.999, and 0.05 with its '
         'neighbours 0.049999/0.050001); for every (estimator, configuration, data set) the whole grid is evaluated and the '
         'limits, containment, nestedness across the grid and alpha-independence of estimate/se are judged; streams: count '
@@ -949,6 +955,19 @@ def cell_ic(chk, drv, data_seed, i):
         chk.d(close(est, float(d.mean()), rtol=1e-11, atol=1e-14) and close(var, want, rtol=1e-9, atol=1e-18),
               'aipw_calculator difference: variance = (mean over splits of) var(pseudo-outcome difference) / n', c,
               signature={'estimator': 'aipw_calculator', 'measure': 'difference', 'clause': 'ic_se'})
+        if splits is not None and drv is not None:
+            # gate K on the definition regenerated from the `splits` branch (Gen/FitSplits.lean, Props/C06_Splits.lean):
+            # difference (per-split variance) and ratio (which ignores the splits), on the same vectors
+            for diff_ in (True, False):
+                e_, v_ = aipw_calculator(y, a, q1, q0, g1, g0, difference=diff_, splits=splits)
+                rep, _ = drv.ask('aipwsplits', c='f', difference=int(diff_), hasw=0, nan=fx(float('nan')),
+                                 s=enc_list(sp, str), a=enc_list(a.astype(int), str), y=enc_list(y, fx),
+                                 q1=enc_list(q1, fx), q0=enc_list(q0, fx), g1=enc_list(g1, fx), g0=enc_list(g0, fx))
+                # float sums over n rows in another association order; the variance adds a mean over the splits
+                chk.k(rep['status'] == 'ok' and close(unfx(rep['est']), float(e_), rtol=1e-10, atol=1e-12)
+                      and close(unfx(rep['var']), float(v_), rtol=1e-9, atol=1e-15),
+                      'aipw_calculator(splits=…) = definition generated from its source (estimate and variance)',
+                      dict(c, difference=diff_, impl=[float(e_), float(v_)], model=rep))
         if splits is None:
             rr, lv = aipw_calculator(y, a, q1, q0, g1, g0, difference=False)
             judge_rr_ic(chk, 'aipw_calculator', float(lv), a, y, q1, q0, y1, y0, g1, g0, n, c)
